@@ -115,6 +115,10 @@ Record facts := mkFacts {
   (* unzipNestedZipFiles: unzip(..., limits, currentDepth + ns_depth_inc); the error of fs.Rm(nestedZipFile) is returned *)
   ns_depth_inc : Z;
   ns_rm_error_returned : bool;
+  (* every exported function / method of utils/filesystem from which unzip or newZipReader can be reached; for every
+     function on such a path the calls that lead on (what is handed down as limits is part of the text); and for every
+     package-level wrapper of a VFS method whether it is exactly `return globalFileSystem.<SameName>(<all parameters in order>)` *)
+  ep_entry_points : list string; ep_edges : list (string * string); ep_wrappers : list (string * bool);
   (* canonical traces: the limit-relevant statements of each function in source order *)
   tr_newzipreader : list string; tr_unzip : list string; tr_nested : list string; tr_zippedfile : list string
 }.
@@ -148,6 +152,32 @@ Definition expected : facts := {|
   zf_eos_probe := true;
   ns_depth_inc := 1%Z;
   ns_rm_error_returned := true;
+  ep_entry_points := [
+    "func NewZipFileSystem(FS,string,ILimits)";
+    "func NewZipFileSystemFromStandardFileSystem(string,ILimits)";
+    "func Unzip(string,string)";
+    "func UnzipWithContextAndLimits(context.Context,string,string,ILimits)";
+    "method VFS.Unzip(string,string)";
+    "method VFS.UnzipWithContext(context.Context,string,string)";
+    "method VFS.UnzipWithContextAndLimits(context.Context,string,string,ILimits)"
+  ];
+  ep_edges := [
+    ("NewZipFileSystem", "newZipFSAdapterFromFilePath(fs,source,limits)");
+    ("NewZipFileSystemFromStandardFileSystem", "NewZipFileSystem(NewStandardFileSystem(),source,limits)");
+    ("Unzip", "globalFileSystem.Unzip(source,destination)");
+    ("UnzipWithContextAndLimits", "globalFileSystem.UnzipWithContextAndLimits(ctx,source,destination,limits)");
+    ("VFS.Unzip", "fs.UnzipWithContext(context.Background(),source,destination)");
+    ("VFS.UnzipWithContext", "fs.unzip(ctx,source,destination,NoLimits(),0)");
+    ("VFS.UnzipWithContextAndLimits", "fs.unzip(ctx,source,destination,limits,0)");
+    ("VFS.unzip", "fs.unzipNestedZipFiles(ctx,filePath,limits,fileDepth)");
+    ("VFS.unzip", "newZipReader(fs,source,limits,currentDepth)");
+    ("VFS.unzipNestedZipFiles", "fs.unzip(ctx,nestedZipFile,destination,limits,currentDepth+1)");
+    ("newZipFSAdapterFromFilePath", "newZipReader(fs,zipFilePath,limits,0)")
+  ];
+  ep_wrappers := [
+    ("Unzip", true);
+    ("UnzipWithContextAndLimits", true)
+  ];
   tr_newzipreader := [
     "if apply && GMaxDepth CGe 0 && VCurrentDepth CGt GMaxDepth {";
     "refuse(TooLarge)";
